@@ -26,7 +26,7 @@ def affine_case(rng, kind, variant):
     """returns (problem, exact(x,y)->value in the file's units, derived dict)"""
     B = Builder(kind)
     p = B.p
-    axi = variant == "axi"
+    axi = variant in ("axi", "axi-convection")
     p["problemtype"] = "axisymmetric" if axi else "planar"
     p["units"] = rng.choice(femgen.UNITS)
     p["depth"] = rng.choice([1.0, 2.0, 5.0])
@@ -53,7 +53,7 @@ def affine_case(rng, kind, variant):
         m2 = B.prop("blockprops", name="m2", kx=e2, ky=e2, kt=0.0, qv=0.0)
         V0, V1 = 300.0 + V0, 300.0 + V1
         bA = B.prop("bdryprops", name="A", type=0, Tset=V0)
-        if variant == "convection":
+        if variant in ("convection", "axi-convection"):
             hh, Tinf = rng.choice([5.0, 50.0]), rng.choice([280.0, 320.0])
             bB = B.prop("bdryprops", name="B", type=2, h=hh, Tinf=Tinf)
             info.update(h=hh, Tinf=Tinf)
@@ -70,8 +70,16 @@ def affine_case(rng, kind, variant):
         # field along z between the plates z = y0 and z = y0 + H
         B.rect(x0, y0, x0 + W, y0 + H, dict(b=dict(bdry=bA), t=dict(bdry=bB), l={}, r={}))
         B.label(x0 + W * 0.3, y0 + H * 0.4, m1, maxarea=d)
-        exact = lambda x, y: V0 + (V1 - V0) * (y - y0) / H
-        info.update(E=(V1 - V0) / (H * u), vol=math.pi * ((x0 + W) ** 2 - x0 ** 2) * H * u ** 3, eps=e1)
+        if variant == "axi-convection":
+            # the temperature rise (0.1 K) is tiny against the level (300 K): ask for a tighter solve so that
+            # "to solver precision" (relative to the level) resolves it
+            p["precision"] = 1e-10
+            # disk / washer cooled on its top face (an edge along which r varies): k dT/dz = -h (T(top) - Tinf), T linear in z
+            ga = -info["h"] * (V0 - info["Tinf"]) / (e1 + info["h"] * H * u)
+            exact = lambda x, y: V0 + ga * (y - y0) * u
+        else:
+            exact = lambda x, y: V0 + (V1 - V0) * (y - y0) / H
+            info.update(E=(V1 - V0) / (H * u), vol=math.pi * ((x0 + W) ** 2 - x0 ** 2) * H * u ** 3, eps=e1)
     else:
         B.rect(x0, y0, x0 + W, y0 + H, dict(l=dict(bdry=bA), r=dict(bdry=bB), b={}, t={}))
         if two:
@@ -251,7 +259,7 @@ def q_skin(ctx, p, ref, wd):
 def correspond(ctx):
     rng = ctx.rng
     plan = [("fee", "plates"), ("fee", "series"), ("fee", "axi"), ("feh", "plates"), ("feh", "convection"), ("feh", "axi"),
-            ("fem", "plates"), ("fem", "series"), ("feh", "series")]
+            ("fem", "plates"), ("fem", "series"), ("feh", "series"), ("feh", "axi-convection"), ("feh", "axi-convection")]
     if not ctx.quick():
         plan = plan * 6
     feats, samples, done = {}, [], 0
